@@ -219,7 +219,8 @@ static int cmd_batch(int argc, char **argv)
                 fprintf(out, "%s\n", QJsonDocument(o).toJson(QJsonDocument::Compact).constData());
             }
         }
-        projs.insert(r.proj);
+        if (r.nsw >= 2)
+            projs.insert(r.proj);
         sim_s += r.sim_ns * 1e-9;
         decisions += r.ndec;
         switches += r.nsw;
